@@ -94,7 +94,7 @@ def run_harness(run, sub, tier, which=None, timeout=1800):
     args = [sub, tier] + ([which] if which else [])
     rc, out, err = vlib.harness(AREA, args, run.seed, timeout=timeout)
     recs = []
-    for l in out.splitlines():
+    for l in out.split("\n"):
         l = l.strip()
         if l.startswith("{"):
             try:
